@@ -6,8 +6,11 @@ From Coq Require Import Lia.
 (* ---------- what one poll of an acquire future does, path by path ---------- *)
 Definition fresh (s : sh) : Prop := forall id, In id (map eid (se0 s)) -> (id < snid s)%nat.
 
+(* after a successful acquisition: one more listener is notified if permits are left *)
+Definition baton (s : sh) : sh := if 0 <? sw0 s then notify E0 1 false s else s.
+
 Definition sem_poll_spec (w : waker) (l : option nat) (s : sh) : option nat * sh * bool :=
-  if 0 <? sw0 s then (None, drop_listener_opt E0 l (setw W0 (sw0 s - 1) s), true)
+  if 0 <? sw0 s then (None, baton (drop_listener_opt E0 l (setw W0 (sw0 s - 1) s)), true)
   else match l with
        | None =>
            (Some (snid s), set_nid (S (snid s)) (sete E0 (se0 s ++ [mkEntry (snid s) (Task w)]) s), false)
@@ -46,7 +49,7 @@ Qed.
 
 Lemma loop_S f w l s : sem_poll_loop (S f) w l s =
   let '(s, ok) := sem_try s in
-  if ok then SReady None (drop_listener_opt E0 l s)
+  if ok then SReady None (baton (drop_listener_opt E0 l s))
   else match l with
        | None => let '(s, id) := listen E0 s in sem_poll_loop f w (Some id) s
        | Some id => let '(s, r) := poll_listener E0 id w s in
@@ -192,6 +195,17 @@ Qed.
 Lemma wrap_pos c : 0 < wrap c -> 0 < c.
 Proof. intro H. destruct (N.eq_dec c 0) as [->|]; [unfold wrap in H; rewrite N.mod_0_l in H by (rewrite USZ_val; lia); lia | lia]. Qed.
 
+Lemma SLiveW_baton x : SLiveW (swk (s_sh x)) x ->
+  SLiveW (swk (baton (s_sh x))) (s_upd x (baton (s_sh x)) (s_futs x) (s_guards x)).
+Proof.
+  intros (I & Pe & Av & Er & K1 & K2). unfold baton. destruct (0 <? sw0 (s_sh x)) eqn:P.
+  - destruct (notify_world 1 false (s_sh x)) as (N1 & N2 & N3 & N4 & N5).
+    unfold SLiveW, s_upd, slook, pend_ok, avail_ok, keys_ok. cbn [s_sh s_futs s_nf]. rewrite N1, N2, N3, N4, N5.
+    split; [apply (InvB_notify sfut sf_lis sf_meta 1 false _ _ _ _ I)|]. split; [exact Pe|]. split; [|split; [exact Er | split; assumption]].
+    intros _. destruct (se0 (s_sh x)) as [|e r] eqn:Q; [left; reflexivity|]. right. apply notify_has; [lia | discriminate].
+  - unfold SLiveW, s_upd, slook, pend_ok, avail_ok, keys_ok. cbn [s_sh s_futs s_nf]. split; [exact I|]. split; [exact Pe|]. split; [exact Av|]. split; [exact Er | split; assumption].
+Qed.
+
 Lemma step_core_SLiveW x o : SLive x -> swk (s_sh x) = [] ->
   SLiveW (swk (s_sh (fst (sstep_core x o)))) (fst (sstep_core x o)).
 Proof.
@@ -235,7 +249,8 @@ Proof.
             * rewrite (alookup_aupdate_same _ _ _ _ L) in Lg. inversion Lg; subst. cbn. split; [discriminate | intro H; exfalso; apply H; reflexivity].
             * rewrite alookup_aupdate_other in Lg by exact N. apply (Pe g fg Lg).
           + rewrite keys_aupdate. split; assumption. }
-      destruct (sf_arc fu); cbn [fst]; unfold s_inc; cbn [s_sh s_bump_g s_upd]; exact G.
+      pose proof (SLiveW_baton (s_bump_g (s_upd x s' (aupdate f f' (s_futs x)) (s_guards x ++ [(s_ng x, sf_arc fu)]))) G) as G2. cbn [s_sh s_bump_g s_upd s_futs s_guards] in G2.
+      destruct (sf_arc fu); cbn [fst]; unfold s_inc; cbn [s_sh s_bump_g s_upd]; exact G2.
     + assert (Z : sw0 (s_sh x) = 0) by lia.
       destruct (sf_lis fu) as [id|] eqn:Ls.
       * (* has a listener *)
